@@ -114,7 +114,8 @@ Definition sp_step (i : N) (s : sp) (e : ev) (o : out) : sp * bool :=
   let sent := rev (o_tx o) ++ sp_tx s in
   let ok_complete :=
     match fresh with
-    | Some idx => if existsb (fun t => tx_idx t =? idx) (o_tx o) then all_sent subs sent else true
+    | Some _ => all_sent subs sent    (* the harness only completes genuine handshakes: the new session MUST be taken
+                                         into use (installed as current), so whatever was held goes out in this step *)
     | None => true
     end in
   let passed := match e with
